@@ -251,20 +251,24 @@ fn e5_tags<const EPS: bool>() {
     al.0[0] = tb[0]; al.0[1] = tb[1]; al.0[2] = tb[2]; al.0[3] = tb[3];
     al.0[4] = tb[4]; al.0[5] = tb[5]; al.0[6] = tb[6]; al.0[7] = tb[7];
     let mut sl = SliceWithPos::new(&al.0[..n]);
-    if EPS {
-        let r = <E5<Vec<u8>>>::_deserialize_eps_inner(&mut sl);
-        match r {
-            Ok(e) => { crate::cover!(true, "Ok"); assert!(tag == orig && <E5C as Case>::same_eps(&x, &e), "C15: a foreign tag was mapped to a variant / payload differs"); }
-            Err(DE::InvalidTag(t)) => { crate::cover!(true, "InvalidTag"); assert!(foreign && t == tag, "C15: InvalidTag iff foreign, carrying the tag"); }
-            Err(_) => { assert!(false, "C15: only InvalidTag may be returned for a complete stream"); }
+    // (two separate matches so that each instance only carries its own cover witnesses)
+    let verdict: (bool, Option<usize>, bool) = if EPS {
+        match <E5<Vec<u8>>>::_deserialize_eps_inner(&mut sl) {
+            Ok(e) => (true, None, <E5C as Case>::same_eps(&x, &e)),
+            Err(DE::InvalidTag(t)) => (false, Some(t), false),
+            Err(_) => (false, None, false),
         }
     } else {
-        let r = <E5<Vec<u8>>>::_deserialize_full_inner(&mut sl);
-        match r {
-            Ok(e) => { crate::cover!(true, "Ok"); assert!(tag == orig && <E5C as Case>::same(&x, &e), "C15: a foreign tag was mapped to a variant / payload differs"); }
-            Err(DE::InvalidTag(t)) => { crate::cover!(true, "InvalidTag"); assert!(foreign && t == tag, "C15: InvalidTag iff foreign, carrying the tag"); }
-            Err(_) => { assert!(false, "C15: only InvalidTag may be returned for a complete stream"); }
+        match <E5<Vec<u8>>>::_deserialize_full_inner(&mut sl) {
+            Ok(e) => (true, None, <E5C as Case>::same(&x, &e)),
+            Err(DE::InvalidTag(t)) => (false, Some(t), false),
+            Err(_) => (false, None, false),
         }
+    };
+    match verdict {
+        (true, _, same) => { crate::cover!(true, "Ok"); assert!(tag == orig && same, "C15: a foreign tag was mapped to a variant / payload differs"); }
+        (false, Some(t), _) => { crate::cover!(true, "InvalidTag"); assert!(foreign && t == tag, "C15: InvalidTag iff foreign, carrying the tag"); }
+        (false, None, _) => { assert!(false, "C15: only InvalidTag may be returned for a complete stream"); }
     }
 }
 #[cfg_attr(kani, kani::proof)] #[cfg_attr(kani, kani::unwind(5))]
